@@ -482,6 +482,11 @@ func NewSubvolumeFromStrings(offsetStr, sizeStr, sep string) (*Subvolume, error)
 	if size.NumDims() != 3 {
 		return nil, fmt.Errorf("Size must be 3 (not %d) dimensions", size.NumDims())
 	}
+	for dim := uint8(0); dim < 3; dim++ {
+		if size.Value(dim) < 0 {
+			return nil, fmt.Errorf("Size %s must not be negative in any dimension", size)
+		}
+	}
 	return NewSubvolume(offset, size), nil
 }
 
